@@ -66,7 +66,7 @@ CLAIMS = {
         "unit / duplicate line insertion (both signs for network), line negation (network), monotone under submatrices incl. row contraction, "
         "for graphic, cographic, network, conetwork and for step lists without pivots. Not proved, classical matroid theory trusted: pivot "
         "invariance for graphic/network/SP, 2-sum closure for graphic/network/SP, delta/Y/3-sum closure of regularity (Seymour). Tie: instances "
-        "far beyond oracle size (network matrices of random digraphs, R10/R12, 1-/2-sums, corrupted entries; up to ~100 lines quick, ~300 "
+        "far beyond oracle size (network matrices of random digraphs, R10/R12, 1-/2-sums, corrupted entries; up to ~100 lines quick, ~160 "
         "thorough) with seeded composite transformations applied through CMRchrmatTranspose/Permute/Slice/BinaryPivot/TernaryPivot: the "
         "transformed matrix must equal the model's and all ten recognizers' verdicts on M and g(M) must satisfy the table; k-sums composed by "
         "the library are compared with the composition model and the verdicts of operands and sum related.",
